@@ -78,12 +78,40 @@ def replay(op, g, who, members, listeners, world, S):
         common(obs, 'query')
         if obs['g1'] != before['g1'] or obs['g2'] != before['g2']:
             bad.append('queries disagree with membership: %s vs %s' % (obs, before))
+    if not bad:
+        # nothing visible sequentially: the counterexample may be one of the lock invariant (state at the release of a group's entry)
+        if op not in _RACED:
+            _RACED[op] = race(op)
+        if _RACED[op]['replayed']:
+            return _RACED[op]
     return {'replayed': bool(bad), 'detail': 'native pg scenario %s %s %s from members %s, group monitor %s, world monitor %s -> %s ; violated %s' % (
         op, g, ''.join(who), before, bool(listeners), sorted(world), runs, bad),
         'replay': {'op': op, 'g': g, 'who': list(who), 'members': {k[1]: v for k, v in members.items()}, 'lg': bool(listeners), 'lw': 'scope' if world.get((S['D'], S['AG'])) else ('all' if world else 'none'), 'S': S}}
 
 
+_RACED = {}
+RACE_MODES = {'leave_all': 'exit', 'exit': 'exit', 'demonitor_all': 'exit', 'leave_scoped': 'leave_join', 'join_scoped': 'join_leave'}
+
+
+def race(op, tries=3):
+    """the lock invariant (index agrees with membership whenever a group's entry is released) has no sequential observable: look for an interleaving of
+    two threads on the real build after which the public queries disagree. A disagreement reproduces the counterexample; none found = not reproduced."""
+    first = RACE_MODES.get(op, 'exit')
+    runs = []
+    for mode in [first] + [m for m in ('exit', 'leave_join', 'join_leave') if m != first]:
+        for t in range(tries):
+            out, _, rc, err = native.run('pg_race', mode=mode, k=64 if mode == 'exit' else 16, iters=40 if mode == 'exit' else 60, timeout=120)
+            if rc != 0:
+                raise RuntimeError('native pg race failed: ' + err[-300:])
+            runs.append({'mode': mode, 'disagreements': out.get('disagreements'), 'detail': out.get('detail', '')})
+            if out.get('disagreements', '0') != '0':
+                return {'replayed': True, 'detail': 'two threads on the real build (%s): %s' % (mode, out.get('detail')), 'replay': {'race': mode, 'op': op}}
+    return {'replayed': False, 'detail': 'no interleaving of two threads made the public queries disagree: %s' % runs, 'replay': {'race': first, 'op': op}}
+
+
 def replay_json(rp):
+    if 'race' in rp:
+        return race(rp['op'])
     S = rp['S']
     members = {(S['D'], g): v for g, v in rp['members'].items()}
     listeners = {(S['D'], 'g1'): ['l']} if rp['lg'] else {}
